@@ -323,3 +323,8 @@ CHECKS["C09"]["text"] = CHECKS["C09"]["text"] + " Module- and class-level state 
 CHECKS["C13"]["text"] = CHECKS["C13"]["text"] + " Sibling kind tables agree with TYPE's own (R13.9 = R08.9)."
 CHECKS["C15"]["text"] = CHECKS["C15"]["text"] + " The parser does not re-decide the kind of a scalar (R15.9 = R04.12): a sealed text read back with another kind of value would not verify."
 CHECKS["C20"]["text"] = CHECKS["C20"]["text"] + " R20.5c also covers a str-only method called directly on a node's value (`child.value.strip()`) outside an isinstance(..., str) guard."
+
+# eighth (small) seeding round
+CHECKS["C11"]["text"] = CHECKS["C11"]["text"] + " Also: every value stored into <node>.value by the schema repair walk is, on every path, the result of repair_value(<that node>.value, <the field's own definition>) made in the same visit - never an outcome read back from a memo filled by another node (R11.9)."
+CHECKS["C08"]["text"] = CHECKS["C08"]["text"] + " In TYPE, the kind the table is asked for and the kind the bool guard tests are the same expression (R08.9)."
+CHECKS["C14"]["text"] = CHECKS["C14"]["text"] + " R14.8 also covers `if not <raw value>: continue` skips in the converters, and judges only key-level decisions (a test of a whole rendering keeps or drops no key)."
